@@ -264,7 +264,13 @@ class ExprAff(Expr):
     def __str__(self):
         return "%s = %s"%(str(self.dst), str(self.src))
     def get_r(self, mem_read=False):
-        return self.src.get_r(mem_read)
+        r = self.src.get_r(mem_read)
+        if mem_read and isinstance(self.dst, ExprMem):
+            # the address of a store is read (and its segment selector)
+            r = r.union(self.dst.arg.get_r(mem_read))
+            if isinstance(self.dst.segm, Expr):
+                r = r.union(self.dst.segm.get_r(mem_read))
+        return r
     def get_w(self):
         if isinstance(self.dst, ExprMem):
             return set([self.dst]) #[memreg]
@@ -353,7 +359,10 @@ class ExprMem(Expr):
             return "@%d[%s]"%(self.size, str(self.arg))
     def get_r(self, mem_read=False):
         if mem_read:
-            return set(self.arg.get_r(mem_read).union(set([self])))
+            r = set(self.arg.get_r(mem_read).union(set([self])))
+            if isinstance(self.segm, Expr):
+                r = r.union(self.segm.get_r(mem_read))
+            return r
         else:
             return set([self])
     def get_w(self):
